@@ -791,13 +791,12 @@ class KernelCpu:
                     assert isinstance(
                         value._buffer.context, ContextCpu
                     ), f"Incompatible context for argument `{arg.name}`."
+                    # address of the first element (a slice of a bytearray
+                    # would be a temporary copy)
+                    buf = np.frombuffer(value._buffer.buffer, dtype="int8")
+                    ptr = buf.ctypes.data + value._offset + value._data_offset
                     return self.ffi_interface.cast(
-                        value._c_type + "*",
-                        self.ffi_interface.from_buffer(
-                            value._buffer.buffer[
-                                value._offset + value._data_offset :
-                            ]  # fails for pyopencl, cuda
-                        ),
+                        dtype2ctype(value._itemtype._dtype) + "*", ptr
                     )
             else:
                 raise ValueError(
